@@ -125,3 +125,60 @@ def check_call_cli(run, rt, infile, outfile, argv, expect, in_log2):
     if msg:
         return run.violate(mon, "call-cli-file-differs-from-result", msg, wit)
     run.held(mon, f"cli-call:{expect['method']}" + (":purity" if expect["purity"] else "") + (":filters" if expect["filters"] else "") + (":center-at" if expect.get("center_at") else ""))
+
+
+# ------------------------------------------------------------ generic plumbing
+
+def _norm(v):
+    if isinstance(v, (list, tuple)):
+        return [_norm(x) for x in v]
+    if isinstance(v, (np.floating, float)):
+        return float(v)
+    if isinstance(v, (np.integer,)):
+        return int(v)
+    if isinstance(v, np.bool_):
+        return bool(v)
+    return v
+
+
+def check_cli(run, rt, owner, attr, argv, expect, label, truthy=()):
+    """Run `argv`, require exactly one call of owner.attr, and compare the named
+    arguments it received with `expect` ({parameter name: value}); parameters
+    listed in `truthy` are compared by truth value.  Returns (bound arguments,
+    result) or None after recording a violation / out-of-domain verdict."""
+    import inspect
+    mon = f"cli.{label}[plumbing]"
+    target = rt.original(getattr(owner, attr))
+    out = run_subcommand(run, rt, owner, attr, argv)
+    wit = {"argv": [a if len(str(a)) < 200 else str(a)[:200] for a in argv], "expected": {k: _norm(v) for k, v in expect.items()}}
+    if out["raised"] is not None and not out["calls"]:
+        run.violate(mon, f"{label}-cli-raises-{type(out['raised']).__name__}", f"{out['raised']!r}", wit)
+        return None
+    if len(out["calls"]) != 1:
+        run.violate(mon, f"{label}-cli-function-not-reached-once", f"{attr} was reached {len(out['calls'])} times", wit)
+        return None
+    args, kwargs, res = out["calls"][0]
+    try:
+        ba = inspect.signature(target).bind(*args, **kwargs)
+        ba.apply_defaults()
+        got = dict(ba.arguments)
+    except TypeError as exc:
+        run.violate(mon, f"{label}-cli-bad-call", f"arguments do not fit the function: {exc}", wit)
+        return None
+    wit["received"] = {k: (_norm(v) if not hasattr(v, "data") else "<table>") for k, v in got.items() if k in expect}
+    for name, want in expect.items():
+        have = got.get(name)
+        if name in truthy:
+            ok = bool(have) == bool(want)
+        elif isinstance(want, float) and have is not None and not isinstance(have, (list, tuple, str)):
+            ok = abs(float(have) - want) <= 1e-12 * max(1.0, abs(want))
+        else:
+            ok = _norm(have) == _norm(want)
+        if not ok:
+            run.violate(mon, f"{label}-cli-passes-wrong-{name}", f"{name}: the command line asks for {_norm(want)!r}, {attr} received {_norm(have)!r}", wit)
+            return None
+    return got, res, wit
+
+
+def held(run, label, cls):
+    run.held(f"cli.{label}[plumbing]", cls)
